@@ -122,6 +122,14 @@ func httpErrorFromResponse(statusCode int, contentType string, src *bytes.Buffer
 		stat.Code = int32(httpStatusCodeToRPC(statusCode)) //nolint:gosec
 		stat.Message = http.StatusText(statusCode)
 	}
+	if stat.GetCode() == 0 {
+		// A non-OK HTTP status is never a successful RPC: without an error code in
+		// the body, the code comes from the HTTP status.
+		stat.Code = int32(httpStatusCodeToRPC(statusCode)) //nolint:gosec
+		if stat.GetMessage() == "" {
+			stat.Message = http.StatusText(statusCode)
+		}
+	}
 	connectErr := connect.NewWireError(
 		connect.Code(stat.GetCode()), //nolint:gosec // No information loss.
 		errors.New(stat.GetMessage()),
